@@ -117,6 +117,9 @@ func printReport(rep *FuncReport, verbose bool) {
 	for _, u := range rep.Unsupported {
 		fmt.Println("   UNSUPPORTED:", u)
 	}
+	for _, u := range rep.Unreached {
+		fmt.Println("   UNREACHED:", u)
+	}
 	for _, o := range rep.Obligations {
 		st := "?"
 		if o.Result != nil {
